@@ -131,6 +131,58 @@ macro_rules! sample_float {
 sample_float!(s_f32, f32);
 sample_float!(s_f64, f64);
 
+/// Gains that differ from 1.0 by less than an f32 ulp (1 + k*2^-40): for the five formats whose float
+/// companion is f64 the product must still be taken (f64 value: bitwise native product; 64-bit
+/// integer: the bit-level truncation reference).  The gain has only a handful of set mantissa bits,
+/// which keeps the symbolic product cheap enough for the quick tier.
+pub mod near_unity_gain {
+    use super::*;
+    fn gain() -> f64 {
+        let k: i8 = kani::any();
+        kani::assume(k != 0 && k >= -16 && k <= 16);
+        1.0 + (k as f64) * 9.094947017729282e-13 // 2^-40
+    }
+    /// f64 and i64 at concrete samples (the symbolic versions need two 53-bit multipliers and did not
+    /// finish in 900 s); the gain is still symbolic on the 1 + k*2^-40 grid for the U48 harness below
+    #[kani::proof]
+    #[kani::unwind(8)]
+    pub fn f64_and_i64_concrete_samples() {
+        const GS: [f64; 4] = [1.0 - 9.313225746154785e-10, 1.0 + 9.313225746154785e-10, 1.0 - 2.0e-8, 1.0 + 2.0e-9]; // 1 -+ 2^-30 ...
+        const FS: [f64; 3] = [0.75, -0.3333333333333333, 123456.789];
+        const IS: [i64; 3] = [1i64 << 62, -(1i64 << 61) + 12345, 0x1234_5678_9abc_def0];
+        let mut gi = 0;
+        while gi < 4 {
+            let g = GS[gi];
+            assert!((g as f32) == 1.0f32 && g != 1.0, "the gain rounds to 1.0 in f32 but is not 1.0");
+            let mut k = 0;
+            while k < 3 {
+                let r = Sample::mul_amp(FS[k], g);
+                assert!(r.to_bits() == (FS[k] * g).to_bits() && r != FS[k], "f64: native multiplication, not skipped");
+                let s = IS[k];
+                let p: f64 = s.to_float_sample() * g;
+                let ri = Sample::mul_amp(s, g);
+                assert!(ri as i128 == ref_trunc_f64(p, 64) && ri != s, "i64: scaled through the f64 companion, not skipped");
+                let fr = [s, s];
+                assert!(fr.scale_amp(g)[1] == ri && Frame::mul_amp(fr, [g, 1.0])[0] == ri);
+                k += 1;
+            }
+            gi += 1;
+        }
+        kani::cover!(true, "end");
+    }
+    #[kani::proof]
+    pub fn u48_sample() {
+        let s: U48 = <U48 as IntFmt>::any_val();
+        let g = gain();
+        let p: f64 = s.to_float_sample() * g;
+        kani::assume(p >= -1.0 && p < 1.0);
+        let r = Sample::mul_amp(s, g);
+        assert!(r.amp() == ref_trunc_f64(p, 48), "scaled through the f64 companion, not skipped");
+        kani::cover!(r.raw() != s.raw(), "the gain moved the sample");
+        kani::cover!(true, "end");
+    }
+}
+
 // ------------------------------------------------------------------------------------------
 // frames: [S; N]
 // ------------------------------------------------------------------------------------------
